@@ -20,7 +20,7 @@ from rv.gen import lasobj, secops
 ID = "C16"
 LEVEL = "exploration"
 RULE = ("LASFiles from seeded specs x construction {scratch, read back from text, read with a wrong STOP} x edit "
-        "{none, index replaced, index edited in place, other curve edited, header edited, new index curve inserted, "
+        "{none, index replaced, index edited in place, index shifted / edited by a few ppm of the depth, other curve edited, header edited, new index curve inserted, "
         "index curve deleted} x index shape {increasing, decreasing, single sample, irregular} x writer options "
         "(version, wrap, fmt, column_fmt, len_numeric_field, spacers, data_width, header style; STRT/STOP/STEP left to "
         "lasio) x 2..4 consecutive writes; plus a deterministic grid over (construction, edit, version, wrap) and the "
@@ -39,7 +39,7 @@ LEVEL_NOTE = "Trusts the canonical snapshot to expose every header field and eve
 TECHNIQUE = "runtime monitoring: icontract snapshot/ensure frame condition on LASFile.write + consecutive-output comparison + independent output tokeniser"
 
 _ctx = None
-EDITS = ["none", "index_replace", "index_inplace", "other_curve", "header", "insert_index", "delete_index"]
+EDITS = ["none", "index_replace", "index_inplace", "other_curve", "header", "insert_index", "delete_index", "index_tiny_shift", "index_tiny_inplace"]
 CONSTR = ["scratch", "read", "wrong_stop"]
 
 
@@ -245,6 +245,15 @@ def construct(ctx, case):
     elif edit == "index_inplace":
         k = case.get("inplace_pos", -1)
         las.index[k] = las.index[k] + ((7.0 if k == -1 else -7.0) if n > 1 else 1.0)
+        triggered = True
+    elif edit == "index_tiny_shift":
+        # a bulk shift of a few parts per million of the depth: small, but visible at the %.5f of STRT/STOP
+        d = np.asarray(las.curves[0].data, dtype=float)
+        las.curves[0].data = d + np.sign(d + (d == 0)) * (4e-6 * np.abs(d) + 2e-5)
+        triggered = True
+    elif edit == "index_tiny_inplace":
+        k = case.get("inplace_pos", -1)
+        las.index[k] = las.index[k] + 4e-6 * abs(las.index[k]) + 2e-5
         triggered = True
     elif edit == "other_curve":
         if len(las.curves) < 2:
